@@ -67,6 +67,27 @@ def ensure_select_keyword_order(select, operation):
             raise ParsingException(f"{operation} must go before {next_op}")
 
 
+def params_to_string(params):
+    """`key=value, ...` of a USING / SET parameter list in a form that the grammar reads back:
+    names are quoted like identifiers, identifiers and typed objects are printed as SQL, everything else as JSON
+    (NULL / TRUE / FALSE, double-quoted strings, lists and dicts)"""
+    import json
+    from mindsdb_sql.parser.ast.base import ASTNode
+    from mindsdb_sql.parser.ast.select.identifier import Identifier
+    from mindsdb_sql.parser.ast.select.operation import Object
+
+    items = []
+    for key, value in params.items():
+        if isinstance(value, Object):
+            value_str = f'{value.type}({params_to_string(value.params or {})})'
+        elif isinstance(value, ASTNode):
+            value_str = value.to_string()
+        else:
+            value_str = json.dumps(value, ensure_ascii=False)
+        items.append(f'{Identifier(str(key)).to_string()}={value_str}')
+    return ', '.join(items)
+
+
 class JoinType:
     JOIN = 'JOIN'
     INNER_JOIN = 'INNER JOIN'
